@@ -1254,6 +1254,11 @@ impl HnswBackend {
         let mut snapshot_last_wal_seq = 0u64;
         let mut snapshot_timestamp = 0u64;
         let mut max_wal_seq = 0u64;
+        // (exclusive lower, inclusive upper) WAL sequence range that must be replayed when an
+        // older snapshot stands in for the committed one.
+        let mut fallback_required_seq_range: Option<(u64, u64)> = None;
+        let mut fallback_replayed_seqs: std::collections::HashSet<u64> =
+            std::collections::HashSet::new();
 
         if let Some(snapshot_name) = &manifest.latest_snapshot {
             let snapshot_path = data_dir.join(snapshot_name);
@@ -1262,6 +1267,19 @@ impl HnswBackend {
             // Use load_with_validation for automatic fallback recovery
             match Snapshot::load_with_validation(&snapshot_path, &metrics) {
                 Ok((snapshot, recovered_from_fallback)) => {
+                    // An older snapshot is only a complete base if every WAL entry written
+                    // after it is still available, but segments covered by the newer (now
+                    // unreadable) snapshot may already have been compacted. Remember the
+                    // sequence range the retained WAL has to cover; strict mode verifies it
+                    // after replay.
+                    if recovered_from_fallback {
+                        if let Some(committed_seq) = manifest.latest_snapshot_wal_seq {
+                            if committed_seq > snapshot.last_wal_seq {
+                                fallback_required_seq_range =
+                                    Some((snapshot.last_wal_seq, committed_seq));
+                            }
+                        }
+                    }
                     let snapshot_has_docs =
                         !snapshot.documents.is_empty() || !snapshot.metadata.is_empty();
 
@@ -1380,6 +1398,11 @@ impl HnswBackend {
                 if entry.seq_no > max_wal_seq {
                     max_wal_seq = entry.seq_no;
                 }
+                if let Some((after, upto)) = fallback_required_seq_range {
+                    if entry.seq_no > after && entry.seq_no <= upto {
+                        fallback_replayed_seqs.insert(entry.seq_no);
+                    }
+                }
 
                 // Skip entries already captured in snapshot (sequence-based)
                 if snapshot_last_wal_seq > 0
@@ -1443,6 +1466,20 @@ impl HnswBackend {
                 wal_segment = wal_name,
                 "wal replay complete"
             );
+        }
+
+        if let (Some((after, upto)), RecoveryMode::Strict) =
+            (fallback_required_seq_range, recovery_mode)
+        {
+            if fallback_replayed_seqs.len() as u64 != upto - after {
+                anyhow::bail!(
+                    "strict recovery mode: committed snapshot is unreadable and the fallback snapshot (WAL seq {}) plus the retained WAL does not cover the committed WAL seq {} ({} of {} entries found); refusing to start with missing data",
+                    after,
+                    upto,
+                    fallback_replayed_seqs.len(),
+                    upto - after
+                );
+            }
         }
 
         // Rebuild HNSW index from recovered documents.
